@@ -170,6 +170,16 @@ class Built:
             log.add('plug_td_hang', idx)
             threading.Event().wait()
 
+      if fault == 'td_instance':
+        # the class keeps BasePlug's no-op tearDown; the instance binds its own
+        # (a wrapper plug doing `self.tearDown = self.driver.close`)
+        class P(H.plugs.BasePlug):  # pylint: disable=function-redefined
+          _vf_idx = idx
+
+          def __init__(self):
+            log.add('plug_ctor', idx, id(self))
+            self.tearDown = lambda: log.add('plug_td', idx, id(self))
+
       # cfg['plug_same_name'] = [[i, j], ...]: distinct classes i and j carry
       # the same module and class name (e.g. made by one class factory)
       shown = idx
